@@ -54,6 +54,10 @@ C06_Scaled == T.e = "scale" =>
 C02_ScaledPositive == (T.e = "scale" /\ "positive" \in DOMAIN T) =>
   \/ T.positive
   \/ (TLCSet(2, TLCGet(2) + 1) /\ PrintT("VIOL " \o ToJson([prop |-> "C02", id |-> T.n, line |-> l, what |-> "a split of an amount beyond 2^31 / 2^63 yields a zero or negative posting, a posting in another asset or without a real account"])))
+\* ... and the postings add up to U times what the small run moved (= its amount minus what is kept, judged by MachineTrace), or there are none (C03)
+C03_ScaledExact == (T.e = "scale" /\ "sumok" \in DOMAIN T) =>
+  \/ T.sumok
+  \/ (TLCSet(2, TLCGet(2) + 1) /\ PrintT("VIOL " \o ToJson([prop |-> "C03", id |-> T.n, line |-> l, what |-> "a send of an amount beyond 2^31 / 2^63 through an allotment does not move exactly the amount (minus what is kept), or postings were returned with a failure"])))
 \* generic scaling lift for sends without allotments (every operation is min / max / + / -, hence positively homogeneous):
 \* all numbers of a TLC-validated small case multiplied by U give U times the postings and the same outcome class
 Scaled == (T.e = "scale" /\ "prop" \in DOMAIN T) =>
